@@ -654,3 +654,245 @@ Proof.
     destruct (gram _) as [|e] eqn:G; [exact I|]. rewrite parse_exception_recast by (eapply Hg; exact G).
     apply lib_exc_calc_student_facing. tauto.
 Qed.
+
+(* ------------------------------------------------------------------------------------------------------- *)
+(* G. evaluation of an expression tree: which errors can leave MathExpression.eval                          *)
+(* ------------------------------------------------------------------------------------------------------- *)
+Section EvalProofs.
+  Variable val : Type.
+  Variables (isnan isinf : val -> bool) (nanv : val) (allow_inf : bool).
+
+  Definition ev := eval_node val isnan isinf nanv exc_table evalfn_handlers arity_error allow_inf.
+  Definition ev_top := eval_top val isnan isinf nanv exc_table evalfn_handlers eval_handlers arity_error allow_inf.
+
+  (* induction over trees whose nodes carry lists of subtrees *)
+  Fixpoint node_ind' (P : node val -> Prop)
+      (HL : forall v, P (Leaf v))
+      (HF : forall name vd ex f args, Forall P args -> P (Fn name vd ex f args))
+      (HO : forall f ch, Forall P ch -> P (Op f ch)) (n : node val) : P n :=
+    match n with
+    | Leaf v => HL v
+    | Fn name vd ex f args =>
+        HF name vd ex f args
+           ((fix go (l : list (node val)) : Forall P l :=
+               match l with [] => Forall_nil P | x :: r => Forall_cons x (node_ind' P HL HF HO x) (go r) end) args)
+    | Op f ch =>
+        HO f ch
+           ((fix go (l : list (node val)) : Forall P l :=
+               match l with [] => Forall_nil P | x :: r => Forall_cons x (node_ind' P HL HF HO x) (go r) end) ch)
+    end.
+
+  (* every function oracle in the tree fails only with Python Exceptions (PF), every operator action only with
+     errors satisfying PO *)
+  Fixpoint oracles_ok (PF PO : exc -> Prop) (n : node val) : Prop :=
+    match n with
+    | Leaf _ => True
+    | Fn _ _ _ f args =>
+        (forall vs e, f vs = Raise e -> PF e)
+        /\ (fix all (l : list (node val)) : Prop := match l with [] => True | x :: r => oracles_ok PF PO x /\ all r end) args
+    | Op f ch =>
+        (forall vs e, f vs = Raise e -> PO e)
+        /\ (fix all (l : list (node val)) : Prop := match l with [] => True | x :: r => oracles_ok PF PO x /\ all r end) ch
+    end.
+
+  Definition all_ok (PF PO : exc -> Prop) : list (node val) -> Prop :=
+    fix all (l : list (node val)) : Prop := match l with [] => True | x :: r => oracles_ok PF PO x /\ all r end.
+
+  Lemma children_errors : forall (R : exc -> Prop) PF PO l,
+    Forall (fun x => oracles_ok PF PO x -> forall e, ev x = Raise e -> R e) l ->
+    all_ok PF PO l -> forall e, eval_children ev l = Raise e -> R e.
+  Proof.
+    intros R PF PO l H. induction H as [|x r Hx Hr IH]; intros Hok e He; simpl in He; [discriminate|].
+    destruct Hok as [Hox Hor]. destruct (ev x) as [v|e'] eqn:E.
+    - destruct (eval_children ev r) as [vs|e''] eqn:E2; [discriminate|]. inversion He. subst. apply IH; [exact Hor | reflexivity].
+    - inversion He. subst. apply (Hx Hox). reflexivity.
+  Qed.
+
+  Lemma post_check_errors : forall v e, post_check val isnan isinf nanv exc_table allow_inf v = Raise e ->
+    e = lib_exc "CalcOverflowError" INF_MSG.
+  Proof.
+    intros v e H. unfold post_check in H. destruct (negb allow_inf && isinf v).
+    - inversion H. reflexivity.
+    - destruct (isnan v); discriminate.
+  Qed.
+
+  Lemma call_function_errors : forall name vd ex f vs e,
+    (forall e', f vs = Raise e' -> is_exception e') ->
+    call_function val exc_table evalfn_handlers arity_error name vd ex f vs = Raise e -> student_facing e.
+  Proof.
+    intros name vd ex f vs e Hf H. unfold call_function in H.
+    destruct (negb vd && negb (Nat.eqb ex (List.length vs))).
+    - inversion H. vm_compute. reflexivity.
+    - destruct (f vs) as [v|e'] eqn:F; simpl in H; [discriminate|]. inversion H.
+      apply evalfn_student_facing. apply Hf. reflexivity.
+  Qed.
+
+  (* an arity mismatch on a function that does not validate itself is an ArgumentError with the documented text,
+     and the function is not called *)
+  Lemma call_function_arity : forall name ex f vs, ex <> List.length vs ->
+    call_function val exc_table evalfn_handlers arity_error name false ex f vs
+    = Raise (lib_exc "ArgumentError"
+               (s2z "Wrong number of arguments passed to " ++ name ++ s2z "(...): Expected " ++ dec ex
+                ++ s2z " inputs, but received " ++ dec (List.length vs) ++ s2z ".")).
+  Proof.
+    intros name ex f vs H. unfold call_function. apply Nat.eqb_neq in H. rewrite H. simpl.
+    unfold mk_named, lib_exc, render. simpl. repeat rewrite <- app_assoc. simpl. try rewrite app_nil_r. reflexivity.
+  Qed.
+
+  (* MAIN (tree level): whatever leaves eval_node is student-facing, or is the raw failure of an operator action *)
+  Lemma eval_node_errors : forall PO n, oracles_ok is_exception PO n ->
+    forall e, ev n = Raise e -> student_facing e \/ PO e.
+  Proof.
+    intros PO. apply (node_ind' (fun n => oracles_ok is_exception PO n -> forall e, ev n = Raise e -> student_facing e \/ PO e)).
+    - intros v _ e H. simpl in H. apply post_check_errors in H. subst. left. vm_compute. reflexivity.
+    - intros name vd ex f args IH [Hf Hargs] e H. unfold ev in H. simpl in H. fold ev in H.
+      destruct (eval_children ev args) as [vs|e'] eqn:E.
+      + destruct (existsb isnan vs); [discriminate|].
+        destruct (call_function val exc_table evalfn_handlers arity_error name vd ex f vs) as [v|e''] eqn:C.
+        * apply post_check_errors in H. subst. left. vm_compute. reflexivity.
+        * inversion H. subst. left. eapply call_function_errors; [|exact C]. intros e' He'. eapply Hf. exact He'.
+      + inversion H. subst. eapply (children_errors (fun e => student_facing e \/ PO e)); [exact IH | exact Hargs | exact E].
+    - intros f ch IH [Hf Hch] e H. unfold ev in H. simpl in H. fold ev in H.
+      destruct (eval_children ev ch) as [vs|e'] eqn:E.
+      + destruct (existsb isnan vs); [discriminate|].
+        destruct (f vs) as [v|e''] eqn:C.
+        * apply post_check_errors in H. subst. left. vm_compute. reflexivity.
+        * inversion H. subst. right. eapply Hf. exact C.
+      + inversion H. subst. eapply (children_errors (fun e => student_facing e \/ PO e)); [exact IH | exact Hch | exact E].
+  Qed.
+
+  Definition arith_or_sf (e : exc) : Prop :=
+    student_facing e \/ isinst e "ZeroDivisionError" = true \/ isinst e "OverflowError" = true.
+
+  (* MAIN (eval level): if operator actions fail only with ZeroDivisionError / OverflowError (which is what numpy's
+     error handler and Python arithmetic raise) or with student-facing errors, every error that leaves
+     MathExpression.eval is student-facing, for every tree and every function oracle *)
+  Lemma eval_recast_student_facing : forall env e0, arith_or_sf e0 ->
+    student_facing (apply_handlers exc_table eval_handlers env e0).
+  Proof.
+    intros env e0 Ha. destruct (isinst e0 "OverflowError") eqn:O.
+    - rewrite eval_recast_overflow by exact O. apply lib_exc_calc_student_facing. tauto.
+    - destruct (isinst e0 "ZeroDivisionError") eqn:Z.
+      + rewrite eval_recast_zero by assumption. apply lib_exc_calc_student_facing. tauto.
+      + rewrite eval_recast_other by assumption. destruct Ha as [Hs|[Hz|Ho]]; [exact Hs | congruence | congruence].
+  Qed.
+
+  Lemma eval_top_student_facing : forall n, oracles_ok is_exception arith_or_sf n ->
+    forall e, ev_top n = Raise e -> student_facing e.
+  Proof.
+    intros n Hok e H. unfold ev_top, eval_top, handle in H. fold ev in H.
+    destruct (ev n) as [v|e0] eqn:E; [discriminate|].
+    assert (Heq : e = apply_handlers exc_table eval_handlers (fun _ => []) e0) by (inversion H; reflexivity).
+    rewrite Heq. apply eval_recast_student_facing.
+    destruct (eval_node_errors arith_or_sf n Hok e0 E) as [Hs|Ha]; [left; exact Hs | exact Ha].
+  Qed.
+
+  (* with no assumption on the operator actions beyond "they fail with Exceptions": what leaves eval is an Exception,
+     hence (guard_family) what leaves the grader call is a library error *)
+  Lemma student_facing_is_exception_after_recast : forall env e, is_exception e ->
+    is_exception (apply_handlers exc_table eval_handlers env e).
+  Proof.
+    intros env e He. destruct (isinst e "OverflowError") eqn:O.
+    - rewrite eval_recast_overflow by exact O. vm_compute. reflexivity.
+    - destruct (isinst e "ZeroDivisionError") eqn:Z.
+      + rewrite eval_recast_zero by assumption. vm_compute. reflexivity.
+      + rewrite eval_recast_other by assumption. exact He.
+  Qed.
+
+  Lemma evalfn_is_exception : forall name e, is_exception e ->
+    is_exception (apply_handlers exc_table evalfn_handlers (fun _ => name) e).
+  Proof.
+    intros name e He. destruct (evalfn_recast_cases name e He) as [[H1 H2]|[[_ [_ H]]|[[_ [_ [_ H]]]|[_ [_ [_ H]]]]]];
+      rewrite ?H2, ?H; try exact He; vm_compute; reflexivity.
+  Qed.
+
+  Lemma eval_node_exception : forall n, oracles_ok is_exception is_exception n ->
+    forall e, ev n = Raise e -> is_exception e.
+  Proof.
+    apply (node_ind' (fun n => oracles_ok is_exception is_exception n -> forall e, ev n = Raise e -> is_exception e)).
+    - intros v _ e H. simpl in H. apply post_check_errors in H. subst. vm_compute. reflexivity.
+    - intros name vd ex f args IH [Hf Hargs] e H. unfold ev in H. simpl in H. fold ev in H.
+      destruct (eval_children ev args) as [vs|e'] eqn:E.
+      + destruct (existsb isnan vs); [discriminate|].
+        destruct (call_function val exc_table evalfn_handlers arity_error name vd ex f vs) as [v|e''] eqn:C.
+        * apply post_check_errors in H. subst. vm_compute. reflexivity.
+        * inversion H. subst. unfold call_function in C.
+          destruct (negb vd && negb (Nat.eqb ex (List.length vs))).
+          -- inversion C. vm_compute. reflexivity.
+          -- destruct (f vs) as [v|e0] eqn:F; simpl in C; [discriminate|]. inversion C.
+             apply evalfn_is_exception. eapply Hf. exact F.
+      + inversion H. subst. eapply (children_errors is_exception); [exact IH | exact Hargs | exact E].
+    - intros f ch IH [Hf Hch] e H. unfold ev in H. simpl in H. fold ev in H.
+      destruct (eval_children ev ch) as [vs|e'] eqn:E.
+      + destruct (existsb isnan vs); [discriminate|].
+        destruct (f vs) as [v|e''] eqn:C.
+        * apply post_check_errors in H. subst. vm_compute. reflexivity.
+        * inversion H. subst. eapply Hf. exact C.
+      + inversion H. subst. eapply (children_errors is_exception); [exact IH | exact Hch | exact E].
+  Qed.
+
+  (* end to end: an arbitrary expression tree evaluated inside check, debug off: a library error or a result *)
+  Lemma eval_inside_guard_family : forall n inp (k : val -> outcome result),
+    oracles_ok is_exception is_exception n ->
+    (forall v e, k v = Raise e -> is_exception e) ->
+    match guarded exc_table guard false inp
+            (match ev_top n with Raise e => Raise e | Ret v => k v end) with
+    | Ret _ => True
+    | Raise e => lib_error e
+    end.
+  Proof.
+    intros n inp k Hok Hk. unfold ev_top, eval_top, handle. fold ev.
+    destruct (ev n) as [v|e0] eqn:E.
+    - destruct (k v) as [r|e] eqn:K; simpl; [exact I|]. apply guard_family. eapply Hk. exact K.
+    - cbn [guarded]. apply guard_family. apply student_facing_is_exception_after_recast. eapply eval_node_exception; eassumption.
+  Qed.
+End EvalProofs.
+
+(* ------------------------------------------------------------------------------------------------------- *)
+(* H. statements as quoted in Props/C02.v                                                                   *)
+(* ------------------------------------------------------------------------------------------------------- *)
+Lemma br_rendering : forall s,
+  replace1 NL BR s = flat_map (fun c => if Z.eqb c NL then BR else [c]) s /\ ~ In NL (replace1 NL BR s).
+Proof. intro s. split; [apply br_spec | apply br_no_newline]. Qed.
+
+Lemma generic_list_full : forall t items s, In s (map text_of items) ->
+  infix s (generic_msg guard (PList t items))
+  /\ generic_msg guard (PList t items)
+     = s2z "Invalid Input: Could not check inputs '" ++ join (s2z "', '") (map text_of items) ++ s2z "'".
+Proof. intros t items s H. split; [apply generic_names_every_input; exact H | apply generic_list]. Qed.
+
+Lemma call_check_returned_full : forall cfg check att inp r,
+  shape_ok (cc_mode cfg) inp = true -> check inp = Ret r ->
+  the_call cfg check att inp = post cfg att r
+  /\ (forall e, post cfg att r = Raise e -> e = config_exc ATTEMPT_MSG)
+  /\ (forall n, att = Some n -> exists r', post cfg att r = Ret r')
+  /\ (cc_credit cfg = None -> exists r', post cfg att r = Ret r').
+Proof.
+  intros cfg check att inp r S C. split; [apply call_check_returned; assumption|].
+  split; [intros e H; eapply post_raises_only_config; exact H|].
+  split; [intros n H; subst; apply post_returns | apply post_no_credit_returns].
+Qed.
+
+Lemma evalfn_full : forall name e, is_exception e ->
+  let e' := apply_handlers exc_table evalfn_handlers (fun _ => name) e in
+  student_facing e'
+  /\ ((student_facing e /\ e' = e)
+      \/ (~ student_facing e /\ isinst e "ZeroDivisionError" = true /\ e' = lib_exc "CalcZeroDivisionError" (fn_domain_msg name))
+      \/ (~ student_facing e /\ isinst e "ZeroDivisionError" = false /\ isinst e "OverflowError" = true
+          /\ e' = lib_exc "CalcOverflowError" (fn_overflow_msg name))
+      \/ (~ student_facing e /\ isinst e "ZeroDivisionError" = false /\ isinst e "OverflowError" = false
+          /\ e' = lib_exc "FunctionEvalError" (fn_domain_msg name))).
+Proof. intros name e He. split; [apply evalfn_student_facing; exact He | apply evalfn_recast_cases; exact He]. Qed.
+
+Lemma parse_malformed : forall expr gram e,
+  Balanced (remove_chars parse_strip expr) -> gram (remove_chars parse_strip expr) = GRaise e ->
+  isinst e "ParseException" = true ->
+  the_parse expr gram = Raise (lib_exc "UnableToParse" (PARSE_PRE ++ expr ++ PARSE_POST)).
+Proof.
+  intros expr gram e B Gr P. rewrite parse_balanced by exact B. rewrite Gr. rewrite parse_exception_recast by exact P. reflexivity.
+Qed.
+
+Lemma keyboard_interrupt_not_caught : forall inp,
+  guard_exc exc_table guard false inp (mkExc (builtin_mro "KeyboardInterrupt") [])
+  = mkExc (builtin_mro "KeyboardInterrupt") [].
+Proof. intro inp. apply guard_not_exception. unfold is_exception. vm_compute. discriminate. Qed.
